@@ -11,13 +11,20 @@ EXPLANATION = ('Numbering by sorted name (expressions_names_indices, for all dic
                'bounds / start values by name, blocks of the unique index, a name used twice refused), as are BIOGEME.change_init_values and '
                '_load_saved_iteration (position q receives the value given for names[q], nothing else changes), RawResults.__init__ and '
                'bioResults.get_beta_values (estimate, name and bounds paired by name), the dictionary of values of get_value_and_derivatives, and the '
-               'hand-over of the vectors between these functions (static obligations on the AST).')
+               'hand-over of the vectors between these functions (static obligations on the AST). '
+               'Round 3 (m4, mutation-driven): WHICH names are numbered (every name reported by a formula for a kind is in the table of that kind and '
+               'only those; second contract IdManager.prepare[collection] of the same body), WHEN a Beta reports itself (kind / status), the new name '
+               'after fix_betas, and the descent of change_init_values into every formula and every child (event predicate c03m4_told); '
+               'no check_safe=False is left.')
 LEVEL_TEXT = ('Deductive proof of the by-name plumbing functions; IdManager.prepare as a whole and estimation under renaming are bounded stand-ins. '
               'Round 2: prepare, change_init_values, the iteration-file restart, the results pairing and the value dictionary are deductive as well; '
               'the estimates (optimiser, engine) under renaming remain bounded.')
 LEVEL_NOTE = ('Trusted: pyvc, z3/cvc5, LIBSPEC (sorted, dict order), ENGINE-SPEC for the reading of Beta lines. '
               'Round 2 adds: LEMMA card-of-list-set (pigeonhole), LIBSPEC open()/rpartition for the iteration file, assumed abstract contracts of the '
-              'virtual descents (change_init_values, set_id_manager, audit and the placement collectors) listed in the evidence.')
+              'virtual descents (change_init_values, set_id_manager, audit and the placement collectors) listed in the evidence. '
+              'Round 3 adds two assumed clauses on abstract contracts: Expression.change_init_values leaves the event c03m4_told(formula, dict); '
+              'the keys returned by Expression.dict_of_elementary_expression are the uninterpreted relation c03m4_reports(formula, kind, name) '
+              '(deterministic collector); DEFINITION c03m4_reported_upto (primitive recursion).')
 TECHNIQUE = 'contract-based deductive verification (AST -> VCs -> z3/cvc5) + bounded renaming differential'
 DESIGN_REF = 'DESIGN.md section 3 / C03'
 
